@@ -150,6 +150,11 @@ let check_line (l : string) : string =
   | "IO" -> check_io t
   | "DIR" -> check_dir t
   | "DIRX" -> check_dirx t
+  | "IOC" ->
+    let msize = next t in let _ = next t in let flen = next t in
+    expect t "READS"; let _ = next t in expect t "WRONG";
+    let w = next_int t in
+    if w = 0 then "OK" else Printf.sprintf "ORACLE C14.concurrent_reads_of_one_file_wrong wrong=%d msize=%s flen=%s" w msize flen
   | "DIRR" ->
     if String.length l > 6 && (let n = String.length l in String.sub l (n - 6) 6 = "SAME 1") then "OK"
     else "ORACLE C15.reread_from_offset_0_differs"
